@@ -30,6 +30,7 @@ def Fc : Expr → Bool
     (seq || decide ((bs.map (·.1)).Nodup)) && !body.isEmpty && FcBinds bs && FcList body
   | .call (.sym h) args => foBuiltins.contains h && FcList args
   | .arr es => FcList es
+  | .for_ _ init test incr body => Fc init && Fc test && Fc incr && FcList body
   | _ => false
 def FcList : List Expr → Bool
   | [] => true
@@ -130,18 +131,77 @@ def CClaimA (n : Nat) : Prop :=
 
 theorem foBuiltins_ne_empty : ∀ h ∈ foBuiltins, h ≠ "" := by decide
 
+/-- the generator state inside a `for`: a fresh loop record, pushed on the compile-time loop stack -/
+def forGs (gs : GS) (c : Ctx) (label : Option String) : GS :=
+  { gs with loops := gs.loops ++ [({ label, scopeDepth := c.scopes } : LoopRec)], loopstack := gs.loops.length :: gs.loopstack }
+
+/-- the generator state after a `for`: offsets stored, loop stack popped -/
+def forDone (g5 : GS) (loop : Nat) (brk cont : Int) : GS :=
+  { g5 with loopstack := g5.loopstack.drop 1,
+            loops := g5.loops.set loop ({ (g5.loops.getD loop {}) with breakOff := brk, contOff := cont } : LoopRec) }
+
+/-- the code of a `for` loop, from the code of its four parts -/
+def forCode (loop : Nat) (i t s b : List Instr) : List Instr :=
+  (asmFor loop (i ++ [.popUntilMark loop]) t (s ++ [.popUntilMark loop]) (b ++ [.popUntilMark loop])).1
+
+/-- `GenerateForLoop`, with the state threading spelled out: body, init, test, increment are compiled
+in this order with the loop on the compile-time loop stack; then the offsets are stored. -/
+theorem compile_for_eq (isFn : Nat → Bool) (c : Ctx) (label : Option String) (init test incr : Expr) (body : List Expr) (gs : GS) :
+    (compile isFn c (.for_ label init test incr body)).run gs =
+      match (compileBegin isFn { c with tail := false, scopes := c.scopes + 1 } body).run (forGs gs c label) with
+      | .error _ => .error ()
+      | .ok (rb, g2) => match (compile isFn { c with tail := false, scopes := c.scopes + 1 } init).run g2 with
+        | .error _ => .error ()
+        | .ok (ri, g3) => match (compile isFn { c with tail := false, scopes := c.scopes + 1 } test).run g3 with
+          | .error _ => .error ()
+          | .ok (rt, g4) => match (compile isFn { c with tail := false, scopes := c.scopes + 1 } incr).run g4 with
+            | .error _ => .error ()
+            | .ok (rs, g5) =>
+              .ok ((forCode gs.loops.length ri.1 rt.1 rs.1 rb.1, c.tail),
+                   forDone g5 gs.loops.length
+                     (asmFor gs.loops.length (ri.1 ++ [.popUntilMark gs.loops.length]) rt.1
+                      (rs.1 ++ [.popUntilMark gs.loops.length]) (rb.1 ++ [.popUntilMark gs.loops.length])).2.1
+                     (asmFor gs.loops.length (ri.1 ++ [.popUntilMark gs.loops.length]) rt.1
+                      (rs.1 ++ [.popUntilMark gs.loops.length]) (rb.1 ++ [.popUntilMark gs.loops.length])).2.2) := by
+  rw [compile]
+  simp only [bind, StateT.bind, StateT.run, get, getThe, MonadStateOf.get, StateT.get, pure, Except.pure, Except.bind,
+    set, StateT.set, StateT.pure]
+  unfold forGs forDone forCode
+  cases compileBegin isFn { scopes := c.scopes + 1, funcname := c.funcname, known := c.known } body
+      { fns := gs.fns, loops := gs.loops ++ [{ label := label, scopeDepth := c.scopes }],
+        loopstack := gs.loops.length :: gs.loopstack, live := gs.live } with
+  | error e => rfl
+  | ok vb =>
+    obtain ⟨rb, g2⟩ := vb
+    simp only
+    cases compile isFn { scopes := c.scopes + 1, funcname := c.funcname, known := c.known } init g2 with
+    | error e => rfl
+    | ok vi =>
+      obtain ⟨ri, g3⟩ := vi
+      simp only
+      cases compile isFn { scopes := c.scopes + 1, funcname := c.funcname, known := c.known } test g3 with
+      | error e => rfl
+      | ok vt =>
+        obtain ⟨rt, g4⟩ := vt
+        simp only
+        cases compile isFn { scopes := c.scopes + 1, funcname := c.funcname, known := c.known } incr g4 with
+        | error e => rfl
+        | ok vs =>
+          obtain ⟨rs, g5⟩ := vs
+          rfl
+
 mutual
 theorem compile_total_Fc : ∀ (e : Expr), Fc e = true → ∀ isFn c gs, c.funcname = "" →
-    ∃ code t, (compile isFn c e).run gs = .ok ((code, t), gs) ∧ code ≠ []
-  | .int v, _, isFn, c, gs, hfn => ⟨_, _, by rw [compile]; rfl, by simp⟩
-  | .bool v, _, isFn, c, gs, hfn => ⟨_, _, by rw [compile]; rfl, by simp⟩
-  | .str v, _, isFn, c, gs, hfn => ⟨_, _, by rw [compile]; rfl, by simp⟩
-  | .nilLit, _, isFn, c, gs, hfn => ⟨_, _, by rw [compile]; rfl, by simp⟩
-  | .sym x, _, isFn, c, gs, hfn => ⟨_, _, by rw [compile]; rfl, by simp⟩
+    ∃ code t gs', (compile isFn c e).run gs = .ok ((code, t), gs') ∧ code ≠ [] ∧ gs'.fns = gs.fns
+  | .int v, _, isFn, c, gs, hfn => ⟨_, _, gs, by rw [compile]; rfl, by simp, rfl⟩
+  | .bool v, _, isFn, c, gs, hfn => ⟨_, _, gs, by rw [compile]; rfl, by simp, rfl⟩
+  | .str v, _, isFn, c, gs, hfn => ⟨_, _, gs, by rw [compile]; rfl, by simp, rfl⟩
+  | .nilLit, _, isFn, c, gs, hfn => ⟨_, _, gs, by rw [compile]; rfl, by simp, rfl⟩
+  | .sym x, _, isFn, c, gs, hfn => ⟨_, _, gs, by rw [compile]; rfl, by simp, rfl⟩
   | .begin_ es, he, isFn, c, gs, hfn => by
     rw [Fc] at he
     cases es with
-    | nil => exact ⟨[.push .nil], c.tail, by rw [compile]; rfl, by simp⟩   -- (begin) yields nil (fix C04-02)
+    | nil => exact ⟨[.push .nil], c.tail, gs, by rw [compile]; rfl, by simp, rfl⟩   -- (begin) yields nil (fix C04-02)
     | cons e0 es0 =>
       rw [compile]
       · exact compileBegin_total_Fc (e0 :: es0) (by simp) he isFn c gs hfn
@@ -149,47 +209,47 @@ theorem compile_total_Fc : ∀ (e : Expr), Fc e = true → ∀ isFn c gs, c.func
   | .def_ x e, he, isFn, c, gs, hfn => by
     rw [Fc] at he
     simp only [Bool.and_eq_true] at he
-    obtain ⟨ce, t, h1, _⟩ := compile_total_Fc e he.2 isFn { c with tail := false } gs hfn
-    refine ⟨ce ++ [.dup, .popStackPutEnv x], false, ?_, by simp⟩
+    obtain ⟨ce, t, g1, h1, _, hf1⟩ := compile_total_Fc e he.2 isFn { c with tail := false } gs hfn
+    refine ⟨ce ++ [.dup, .popStackPutEnv x], false, g1, ?_, by simp, hf1⟩
     rw [compile]
     simp only [g_bind_ok, g_pure_ok]
     exact ⟨_, _, h1, rfl⟩
   | .set_ x e, he, isFn, c, gs, hfn => by
     rw [Fc] at he
     simp only [Bool.and_eq_true] at he
-    obtain ⟨ce, t, h1, _⟩ := compile_total_Fc e he.2 isFn { c with tail := false } gs hfn
-    refine ⟨ce ++ [.dup, .update x], false, ?_, by simp⟩
+    obtain ⟨ce, t, g1, h1, _, hf1⟩ := compile_total_Fc e he.2 isFn { c with tail := false } gs hfn
+    refine ⟨ce ++ [.dup, .update x], false, g1, ?_, by simp, hf1⟩
     rw [compile]
     simp only [g_bind_ok, g_pure_ok]
     exact ⟨_, _, h1, rfl⟩
   | .cond arms d, he, isFn, c, gs, hfn => by
     rw [Fc] at he
     simp only [Bool.and_eq_true] at he
-    obtain ⟨dc, t, hd, hdne⟩ := compile_total_Fc d he.2 isFn c gs hfn
-    obtain ⟨as, has⟩ := compileArms_total_Fc arms he.1 isFn c gs hfn
-    refine ⟨asmCond as dc, c.tail, ?_, asmCond_ne_nil as dc hdne⟩
+    obtain ⟨dc, t, g1, hd, hdne, hf1⟩ := compile_total_Fc d he.2 isFn c gs hfn
+    obtain ⟨as, g2, has, hf2⟩ := compileArms_total_Fc arms he.1 isFn c g1 hfn
+    refine ⟨asmCond as dc, c.tail, g2, ?_, asmCond_ne_nil as dc hdne, hf2.trans hf1⟩
     rw [compile]
     simp only [g_bind_ok, g_pure_ok]
     exact ⟨_, _, hd, _, _, has, rfl⟩
   | .and_ es, he, isFn, c, gs, hfn => by
     rw [Fc] at he
-    obtain ⟨cs, hcs, hne⟩ := compileSC_total_Fc es he isFn c gs hfn
-    refine ⟨asmSC false cs, c.tail, ?_, asmSC_ne_nil false cs hne⟩
+    obtain ⟨cs, g1, hcs, hne, hf1⟩ := compileSC_total_Fc es he isFn c gs hfn
+    refine ⟨asmSC false cs, c.tail, g1, ?_, asmSC_ne_nil false cs hne, hf1⟩
     rw [compile]
     simp only [g_bind_ok, g_pure_ok]
     exact ⟨_, _, hcs, rfl⟩
   | .or_ es, he, isFn, c, gs, hfn => by
     rw [Fc] at he
-    obtain ⟨cs, hcs, hne⟩ := compileSC_total_Fc es he isFn c gs hfn
-    refine ⟨asmSC true cs, c.tail, ?_, asmSC_ne_nil true cs hne⟩
+    obtain ⟨cs, g1, hcs, hne, hf1⟩ := compileSC_total_Fc es he isFn c gs hfn
+    refine ⟨asmSC true cs, c.tail, g1, ?_, asmSC_ne_nil true cs hne, hf1⟩
     rw [compile]
     simp only [g_bind_ok, g_pure_ok]
     exact ⟨_, _, hcs, rfl⟩
   | .newScope es, he, isFn, c, gs, hfn => by
     rw [Fc] at he
     simp only [Bool.and_eq_true, Bool.not_eq_true', List.isEmpty_eq_false_iff] at he
-    obtain ⟨code, t, h1, _⟩ := compileNewScope_total_Fc es he.1 he.2 isFn { c with scopes := c.scopes + 1 } c.tail gs hfn
-    refine ⟨[.addScope] ++ code ++ [.removeScope], t, ?_, by simp⟩
+    obtain ⟨code, t, g1, h1, _, hf1⟩ := compileNewScope_total_Fc es he.1 he.2 isFn { c with scopes := c.scopes + 1 } c.tail gs hfn
+    refine ⟨[.addScope] ++ code ++ [.removeScope], t, g1, ?_, by simp, hf1⟩
     cases es with
     | nil => exact absurd rfl he.1
     | cons e es =>
@@ -202,10 +262,10 @@ theorem compile_total_Fc : ∀ (e : Expr), Fc e = true → ∀ isFn c gs, c.func
     simp only [Bool.and_eq_true, Bool.not_eq_true', List.isEmpty_eq_false_iff] at he
     obtain ⟨⟨⟨_, hbody⟩, hbs⟩, hbl⟩ := he
     -- since fix C04-08 the initialisers are compiled with the tail flag off, the body with the form's own flag
-    obtain ⟨rhs, t1, h1⟩ := compileBinds_total_Fc bs hbs isFn { c with scopes := c.scopes + 1, tail := false } seq gs hfn
-    obtain ⟨b, t2, h2, _⟩ := compileBegin_total_Fc body hbody hbl isFn { c with scopes := c.scopes + 1 } gs hfn
+    obtain ⟨rhs, t1, g1, h1, hf1⟩ := compileBinds_total_Fc bs hbs isFn { c with scopes := c.scopes + 1, tail := false } seq gs hfn
+    obtain ⟨b, t2, g2, h2, _, hf2⟩ := compileBegin_total_Fc body hbody hbl isFn { c with scopes := c.scopes + 1 } g1 hfn
     refine ⟨[.addScope] ++ rhs ++ (if seq then [] else (bs.map (fun p => Instr.popStackPutEnv p.1)).reverse)
-      ++ b ++ [.removeScope], t2, ?_, by simp⟩
+      ++ b ++ [.removeScope], t2, g2, ?_, by simp, hf2.trans hf1⟩
     rw [compile]
     simp only [g_bind_ok, g_pure_ok]
     exact ⟨_, _, h1, _, _, h2, rfl⟩
@@ -214,7 +274,7 @@ theorem compile_total_Fc : ∀ (e : Expr), Fc e = true → ∀ isFn c gs, c.func
     | sym h =>
       rw [Fc] at he
       simp only [Bool.and_eq_true, List.contains_iff_mem] at he
-      refine ⟨[.callExpr (.sym h) args], c.tail, ?_, by simp⟩
+      refine ⟨[.callExpr (.sym h) args], c.tail, gs, ?_, by simp, rfl⟩
       rw [compile]
       have hne : (h == c.funcname) = false := by
         rw [hfn]; have := foBuiltins_ne_empty h he.1; simpa using this
@@ -223,16 +283,41 @@ theorem compile_total_Fc : ∀ (e : Expr), Fc e = true → ∀ isFn c gs, c.func
     | _ => simp [Fc] at he
   | .arr es, he, isFn, c, gs, hfn => by
     rw [Fc] at he
-    obtain ⟨code, t, h1⟩ := compileAll_total_Fc es he isFn { c with tail := false } gs hfn
-    refine ⟨code ++ [.callArr es.length], c.tail, ?_, by simp⟩
+    obtain ⟨code, t, g1, h1, hf1⟩ := compileAll_total_Fc es he isFn { c with tail := false } gs hfn
+    refine ⟨code ++ [.callArr es.length], c.tail, g1, ?_, by simp, hf1⟩
     rw [compile]
     simp only [g_bind_ok, g_pure_ok]
     exact ⟨_, _, h1, rfl⟩
-  | .for_ _ _ _ _ _, he, _, _, _, _ | .break_ _, he, _, _, _, _ | .continue_ _, he, _, _, _, _
+  | .for_ label init test incr body, he, isFn, c, gs, hfn => by
+    rw [Fc] at he
+    simp only [Bool.and_eq_true] at he
+    obtain ⟨⟨⟨hi, ht⟩, hs⟩, hb⟩ := he
+    obtain ⟨b, tb, g2, h2, hf2⟩ := compileBeginAny_total_Fc body hb isFn { c with tail := false, scopes := c.scopes + 1 }
+      (forGs gs c label) hfn
+    obtain ⟨i, ti, g3, h3, _, hf3⟩ := compile_total_Fc init hi isFn { c with tail := false, scopes := c.scopes + 1 } g2 hfn
+    obtain ⟨t, tt, g4, h4, _, hf4⟩ := compile_total_Fc test ht isFn { c with tail := false, scopes := c.scopes + 1 } g3 hfn
+    obtain ⟨s, ts, g5, h5, _, hf5⟩ := compile_total_Fc incr hs isFn { c with tail := false, scopes := c.scopes + 1 } g4 hfn
+    refine ⟨forCode gs.loops.length i t s b, c.tail,
+      forDone g5 gs.loops.length
+        (asmFor gs.loops.length (i ++ [.popUntilMark gs.loops.length]) t
+          (s ++ [.popUntilMark gs.loops.length]) (b ++ [.popUntilMark gs.loops.length])).2.1
+        (asmFor gs.loops.length (i ++ [.popUntilMark gs.loops.length]) t
+          (s ++ [.popUntilMark gs.loops.length]) (b ++ [.popUntilMark gs.loops.length])).2.2,
+      ?_, by simp [forCode, asmFor], ?_⟩
+    · rw [compile_for_eq, h2]
+      simp only
+      rw [h3]
+      simp only
+      rw [h4]
+      simp only
+      rw [h5]
+    · show g5.fns = gs.fns
+      rw [hf5, hf4, hf3, hf2]; rfl
+  | .break_ _, he, _, _, _, _ | .continue_ _, he, _, _, _, _
   | .fn _ _ _, he, _, _, _, _ | .defn _ _ _ _, he, _, _, _, _ | .assign _ _, he, _, _, _, _ | .bad _, he, _, _, _, _ => by
     simp [Fc] at he
 theorem compileBegin_total_Fc : ∀ (es : List Expr), es ≠ [] → FcList es = true → ∀ isFn c gs, c.funcname = "" →
-    ∃ code t, (compileBegin isFn c es).run gs = .ok ((code, t), gs) ∧ code ≠ []
+    ∃ code t gs', (compileBegin isFn c es).run gs = .ok ((code, t), gs') ∧ code ≠ [] ∧ gs'.fns = gs.fns
   | [], hne, _, _, _, _, _ => absurd rfl hne
   | [e], _, he, isFn, c, gs, hfn => by
     rw [FcList] at he
@@ -242,30 +327,37 @@ theorem compileBegin_total_Fc : ∀ (es : List Expr), es ≠ [] → FcList es = 
   | e :: e' :: es, _, he, isFn, c, gs, hfn => by
     rw [FcList] at he
     simp only [Bool.and_eq_true] at he
-    obtain ⟨a, ta, ha, hane⟩ := compile_total_Fc e he.1 isFn { c with tail := false } gs hfn
-    obtain ⟨b, tb, hb, _⟩ := compileBegin_total_Fc (e' :: es) (by simp) he.2 isFn c gs hfn
-    refine ⟨a ++ (if a.isEmpty then [] else [.pop]) ++ b, tb, ?_, by simp [hane]⟩
+    obtain ⟨a, ta, g1, ha, hane, hf1⟩ := compile_total_Fc e he.1 isFn { c with tail := false } gs hfn
+    obtain ⟨b, tb, g2, hb, _, hf2⟩ := compileBegin_total_Fc (e' :: es) (by simp) he.2 isFn c g1 hfn
+    refine ⟨a ++ (if a.isEmpty then [] else [.pop]) ++ b, tb, g2, ?_, by simp [hane], hf2.trans hf1⟩
     rw [compileBegin]
     · simp only [g_bind_ok, g_pure_ok]
       exact ⟨_, _, ha, _, _, hb, rfl⟩
     · intro hh; cases hh
+/-- a statement list that may be empty (the body of a `for`) -/
+theorem compileBeginAny_total_Fc : ∀ (es : List Expr), FcList es = true → ∀ isFn c gs, c.funcname = "" →
+    ∃ code t gs', (compileBegin isFn c es).run gs = .ok ((code, t), gs') ∧ gs'.fns = gs.fns
+  | [], _, isFn, c, gs, _ => ⟨[], false, gs, by rw [compileBegin]; rfl, rfl⟩
+  | e :: es, he, isFn, c, gs, hfn => by
+    obtain ⟨code, t, g1, h1, _, hf1⟩ := compileBegin_total_Fc (e :: es) (by simp) he isFn c gs hfn
+    exact ⟨code, t, g1, h1, hf1⟩
 theorem compileSC_total_Fc : ∀ (es : List Expr), FcList es = true → ∀ isFn c gs, c.funcname = "" →
-    ∃ cs, (compileSC isFn c es).run gs = .ok (cs, gs) ∧ ∀ c ∈ cs, c ≠ []
-  | [], _, isFn, c, gs, hfn => ⟨[], by rw [compileSC]; rfl, by simp⟩
+    ∃ cs gs', (compileSC isFn c es).run gs = .ok (cs, gs') ∧ (∀ c ∈ cs, c ≠ []) ∧ gs'.fns = gs.fns
+  | [], _, isFn, c, gs, hfn => ⟨[], gs, by rw [compileSC]; rfl, by simp, rfl⟩
   | [e], he, isFn, c, gs, hfn => by
     rw [FcList] at he
     simp only [Bool.and_eq_true] at he
-    obtain ⟨a, t, ha, hane⟩ := compile_total_Fc e he.1 isFn c gs hfn
-    refine ⟨[a], ?_, by simpa using hane⟩
+    obtain ⟨a, t, g1, ha, hane, hf1⟩ := compile_total_Fc e he.1 isFn c gs hfn
+    refine ⟨[a], g1, ?_, by simpa using hane, hf1⟩
     rw [compileSC]
     simp only [g_bind_ok, g_pure_ok]
     exact ⟨_, _, ha, rfl⟩
   | e :: e' :: es, he, isFn, c, gs, hfn => by
     rw [FcList] at he
     simp only [Bool.and_eq_true] at he
-    obtain ⟨a, t, ha, hane⟩ := compile_total_Fc e he.1 isFn { c with tail := false } gs hfn
-    obtain ⟨b, hb, hbne⟩ := compileSC_total_Fc (e' :: es) he.2 isFn c gs hfn
-    refine ⟨a :: b, ?_, ?_⟩
+    obtain ⟨b, g1, hb, hbne, hf1⟩ := compileSC_total_Fc (e' :: es) he.2 isFn c gs hfn
+    obtain ⟨a, t, g2, ha, hane, hf2⟩ := compile_total_Fc e he.1 isFn { c with tail := false } g1 hfn
+    refine ⟨a :: b, g2, ?_, ?_, hf2.trans hf1⟩
     · rw [compileSC]
       · simp only [g_bind_ok, g_pure_ok]
         exact ⟨_, _, hb, _, _, ha, rfl⟩
@@ -275,7 +367,7 @@ theorem compileSC_total_Fc : ∀ (es : List Expr), FcList es = true → ∀ isFn
       · exact hane
       · exact hbne x hx
 theorem compileNewScope_total_Fc : ∀ (es : List Expr), es ≠ [] → FcList es = true → ∀ isFn c oldtail gs, c.funcname = "" →
-    ∃ code t, (compileNewScope isFn c oldtail es).run gs = .ok ((code, t), gs) ∧ code ≠ []
+    ∃ code t gs', (compileNewScope isFn c oldtail es).run gs = .ok ((code, t), gs') ∧ code ≠ [] ∧ gs'.fns = gs.fns
   | [], hne, _, _, _, _, _, _ => absurd rfl hne
   | [e], _, he, isFn, c, oldtail, gs, hfn => by
     rw [FcList] at he
@@ -285,47 +377,47 @@ theorem compileNewScope_total_Fc : ∀ (es : List Expr), es ≠ [] → FcList es
   | e :: e' :: es, _, he, isFn, c, oldtail, gs, hfn => by
     rw [FcList] at he
     simp only [Bool.and_eq_true] at he
-    obtain ⟨a, ta, ha, hane⟩ := compile_total_Fc e he.1 isFn { c with tail := false } gs hfn
-    obtain ⟨b, tb, hb, _⟩ := compileNewScope_total_Fc (e' :: es) (by simp) he.2 isFn c oldtail gs hfn
-    refine ⟨a ++ [.pop] ++ b, tb, ?_, by simp⟩
+    obtain ⟨a, ta, g1, ha, hane, hf1⟩ := compile_total_Fc e he.1 isFn { c with tail := false } gs hfn
+    obtain ⟨b, tb, g2, hb, _, hf2⟩ := compileNewScope_total_Fc (e' :: es) (by simp) he.2 isFn c oldtail g1 hfn
+    refine ⟨a ++ [.pop] ++ b, tb, g2, ?_, by simp, hf2.trans hf1⟩
     rw [compileNewScope]
     · simp only [g_bind_ok, g_pure_ok]
       exact ⟨_, _, ha, _, _, hb, rfl⟩
     · intro hh; cases hh
 theorem compileBinds_total_Fc : ∀ (bs : List (String × Expr)), FcBinds bs = true → ∀ isFn c seq gs, c.funcname = "" →
-    ∃ code t, (compileBinds isFn c seq bs).run gs = .ok ((code, t), gs)
-  | [], _, isFn, c, seq, gs, hfn => ⟨[], c.tail, by rw [compileBinds]; rfl⟩
+    ∃ code t gs', (compileBinds isFn c seq bs).run gs = .ok ((code, t), gs') ∧ gs'.fns = gs.fns
+  | [], _, isFn, c, seq, gs, hfn => ⟨[], c.tail, gs, by rw [compileBinds]; rfl, rfl⟩
   | (x, e) :: bs, he, isFn, c, seq, gs, hfn => by
     rw [FcBinds] at he
     simp only [Bool.and_eq_true] at he
-    obtain ⟨a, ta, ha, _⟩ := compile_total_Fc e he.1.2 isFn c gs hfn
-    obtain ⟨b, tb, hb⟩ := compileBinds_total_Fc bs he.2 isFn { c with tail := ta } seq gs hfn
-    refine ⟨a ++ (if seq then [.popStackPutEnv x] else []) ++ b, tb, ?_⟩
+    obtain ⟨a, ta, g1, ha, _, hf1⟩ := compile_total_Fc e he.1.2 isFn c gs hfn
+    obtain ⟨b, tb, g2, hb, hf2⟩ := compileBinds_total_Fc bs he.2 isFn { c with tail := ta } seq g1 hfn
+    refine ⟨a ++ (if seq then [.popStackPutEnv x] else []) ++ b, tb, g2, ?_, hf2.trans hf1⟩
     rw [compileBinds]
     simp only [g_bind_ok, g_pure_ok]
     exact ⟨_, _, ha, _, _, hb, rfl⟩
 theorem compileAll_total_Fc : ∀ (es : List Expr), FcList es = true → ∀ isFn c gs, c.funcname = "" →
-    ∃ code t, (compileAll isFn c es).run gs = .ok ((code, t), gs)
-  | [], _, isFn, c, gs, hfn => ⟨[], c.tail, by rw [compileAll]; rfl⟩
+    ∃ code t gs', (compileAll isFn c es).run gs = .ok ((code, t), gs') ∧ gs'.fns = gs.fns
+  | [], _, isFn, c, gs, hfn => ⟨[], c.tail, gs, by rw [compileAll]; rfl, rfl⟩
   | e :: es, he, isFn, c, gs, hfn => by
     rw [FcList] at he
     simp only [Bool.and_eq_true] at he
-    obtain ⟨a, ta, ha, _⟩ := compile_total_Fc e he.1 isFn c gs hfn
-    obtain ⟨b, tb, hb⟩ := compileAll_total_Fc es he.2 isFn { c with tail := ta } gs hfn
-    refine ⟨a ++ b, tb, ?_⟩
+    obtain ⟨a, ta, g1, ha, _, hf1⟩ := compile_total_Fc e he.1 isFn c gs hfn
+    obtain ⟨b, tb, g2, hb, hf2⟩ := compileAll_total_Fc es he.2 isFn { c with tail := ta } g1 hfn
+    refine ⟨a ++ b, tb, g2, ?_, hf2.trans hf1⟩
     rw [compileAll]
     simp only [g_bind_ok, g_pure_ok]
     exact ⟨_, _, ha, _, _, hb, rfl⟩
 theorem compileArms_total_Fc : ∀ (arms : List (Expr × Expr)), FcArms arms = true → ∀ isFn c gs, c.funcname = "" →
-    ∃ as, (compileArms isFn c arms).run gs = .ok (as, gs)
-  | [], _, isFn, c, gs, hfn => ⟨[], by rw [compileArms]; rfl⟩
+    ∃ as gs', (compileArms isFn c arms).run gs = .ok (as, gs') ∧ gs'.fns = gs.fns
+  | [], _, isFn, c, gs, hfn => ⟨[], gs, by rw [compileArms]; rfl, rfl⟩
   | (p, b) :: arms, he, isFn, c, gs, hfn => by
     rw [FcArms] at he
     simp only [Bool.and_eq_true] at he
-    obtain ⟨pc, _, hp, _⟩ := compile_total_Fc p he.1.1 isFn { c with tail := false } gs hfn
-    obtain ⟨bc, _, hb, _⟩ := compile_total_Fc b he.1.2 isFn c gs hfn
-    obtain ⟨r, hr⟩ := compileArms_total_Fc arms he.2 isFn c gs hfn
-    refine ⟨(pc, bc) :: r, ?_⟩
+    obtain ⟨r, g1, hr, hf1⟩ := compileArms_total_Fc arms he.2 isFn c gs hfn
+    obtain ⟨pc, _, g2, hp, _, hf2⟩ := compile_total_Fc p he.1.1 isFn { c with tail := false } g1 hfn
+    obtain ⟨bc, _, g3, hb, _, hf3⟩ := compile_total_Fc b he.1.2 isFn c g2 hfn
+    refine ⟨(pc, bc) :: r, g3, ?_, (hf3.trans hf2).trans hf1⟩
     rw [compileArms]
     simp only [g_bind_ok, g_pure_ok]
     exact ⟨_, _, hr, _, _, hp, _, _, hb, rfl⟩
@@ -334,12 +426,11 @@ end
 /-- whatever `compile` returns for an Fc expression is non-empty code -/
 theorem compile_ne_nil_Fc {e : Expr} (he : Fc e = true) {isFn c gs r}
     (h : (compile isFn c e).run gs = .ok r) (hfn : c.funcname = "") : r.1.1 ≠ [] := by
-  obtain ⟨code, t, h1, hne⟩ := compile_total_Fc e he isFn c gs hfn
+  obtain ⟨code, t, g1, h1, hne, _⟩ := compile_total_Fc e he isFn c gs hfn
   rw [h1] at h
   injection h with h
   subst h
   exact hne
-
 
 /-! ## Atoms, `def`, `set` -/
 
@@ -594,6 +685,21 @@ theorem SimC.scoped {inner pre post : List Instr} {s : St} {rs : Ref.St} {env : 
   | brk l rs3 => exact hin
   | cont l rs3 => exact hin
 
+/-- the relation only reads scopes, linear stack, function table, `curfunc`, frames, heaps and traces -/
+theorem RelC.of_same {s s' : St} {rs rs' : Ref.St} {env : Nat} (h : RelC s rs env)
+    (hsc : s'.scopes = s.scopes) (hlin : s'.linear = s.linear) (hfns : s'.fns = s.fns) (hcur : s'.curfunc = s.curfunc)
+    (hfr : rs'.frames = rs.frames) (hheap : s'.heap = rs'.heap) (htr : s'.trace = rs'.trace) (hclean : CleanSt rs') :
+    RelC s' rs' env := by
+  have hso : ∀ i, scopeOf s' i = scopeOf s i := fun i => by unfold scopeOf; rw [hsc]
+  have hfo : ∀ i, fnOf s' i = fnOf s i := fun i => by unfold fnOf; rw [hfns]
+  refine ⟨⟨by rw [hsc, hfr]; exact h.len, fun i x => by rw [hso, hfr]; exact h.vars i x,
+    fun i => by rw [hso]; exact h.nofn i, by rw [hfr, hlin]; exact h.chain, hheap, htr⟩, ?_, ?_, hclean⟩
+  · rw [hcur]
+    exact h.fnchain.transfer ⟨[], by rw [hlin]; rfl⟩ (by rw [hfns]; exact Nat.le_refl _) (fun id _ => hfo id)
+  · intro name hn
+    have := h.globals name hn
+    rw [hfr]; exact this
+
 /-! ## Operands: `EvalCallExpression` and its nested `Run` -/
 
 /-- `Run` inside a helper function whose code is `code ++ [ret]`: the code lands with `v`, `ret`
@@ -666,9 +772,9 @@ theorem relC_inHelper {s : St} {rs : Ref.St} {env : Nat} (h : RelC s rs env) (co
 
 /-- `EvalCallExpression` on an operand that is not a symbol: compile, register the helper, run it
 in a nested `Run`, restore the control state. -/
-theorem evalCallExpr_nonsym (fuel : Nat) (e : Expr) (hns : ∀ x, e ≠ .sym x) (s : St) (code : List Instr) (t : Bool)
-    (hgen : (runGen (compile (isFnScope s) {} e)).run s = (.ok (code, t), s)) (hne : code ≠ []) :
-    (evalCallExpr (fuel + 2) e).run s =
+theorem evalCallExpr_nonsym (fuel : Nat) (e : Expr) (hns : ∀ x, e ≠ .sym x) (s0 s : St) (code : List Instr) (t : Bool)
+    (hgen : (runGen (compile (isFnScope s0) {} e)).run s0 = (.ok (code, t), s)) (hne : code ≠ []) :
+    (evalCallExpr (fuel + 2) e).run s0 =
       match (run fuel).run (inHelper s code) with
       | (.ok v, s') => (.ok v, ((restore (capOf s)).run s').2)
       | (.error .err, s') => (.error .err, ((restore (capOf s)).run s').2)
@@ -746,17 +852,36 @@ theorem evalCallExpr_sym_sim (x : String) (n : Nat) {s : St} {rs : Ref.St} {env 
       obtain ⟨f, rfl⟩ : ∃ f, fuel = f + 1 := ⟨fuel - 1, by omega⟩
       rw [hrun, hl]
 
+/-- the VM state with the loop table and compile-time loop stack the generator left -/
+def withLoops (s : St) (gs' : GS) : St := { s with loops := gs'.loops, loopstack := gs'.loopstack }
+
+/-- the generator succeeded without touching the function table: `runGen` returns its result and
+stores the loop records -/
+theorem run_runGen_any {α} (g : G α) (s : St) (a : α) (gs' : GS)
+    (h : g.run { fns := s.fns, loops := s.loops, loopstack := s.loopstack, live := s.linear } = .ok (a, gs'))
+    (hf : gs'.fns = s.fns) : (runGen g).run s = (.ok a, withLoops s gs') := by
+  unfold runGen
+  simp only [run_bind, run_get, h, run_set, run_pure, hf]
+  rfl
+
 /-- an operand that is not a symbol, given the segment lemma for it at the same reference fuel -/
 theorem evalCallExpr_nonsym_sim {n : Nat} (hE : CClaimE n) (e : Expr) (he : Fc e = true) (hns : ∀ x, e ≠ .sym x)
-    {s : St} {rs : Ref.St} {env : Nat} (hrel : RelC s rs env) :
-    EvalOk e s rs env (Ref.eval n e env rs) := by
-  obtain ⟨code, t, hc, hne⟩ := compile_total_Fc e he (isFnScope s) {}
-    { fns := s.fns, loops := s.loops, loopstack := s.loopstack, live := s.linear } rfl
-  have hgen : (runGen (compile (isFnScope s) {} e)).run s = (.ok (code, t), s) := run_runGen_ok _ s _ hc
+    {s0 : St} {rs : Ref.St} {env : Nat} (hrel0 : RelC s0 rs env) :
+    EvalOk e s0 rs env (Ref.eval n e env rs) := by
+  obtain ⟨code, t, gs', hc, hne, hfns⟩ := compile_total_Fc e he (isFnScope s0) {}
+    { fns := s0.fns, loops := s0.loops, loopstack := s0.loopstack, live := s0.linear } rfl
+  -- the generator may have registered loop records (a `for` inside the operand): `s` is `s0` with them
+  have hgen : (runGen (compile (isFnScope s0) {} e)).run s0 = (.ok (code, t), withLoops s0 gs') :=
+    run_runGen_any _ s0 _ gs' hc hfns
+  generalize hs : withLoops s0 gs' = s at hgen
+  have hrel : RelC s rs env := by
+    subst hs; exact hrel0.of_same rfl rfl rfl rfl rfl hrel0.heap hrel0.trace hrel0.clean
+  have hs0 : Frame s0 s ∧ s.data = s0.data ∧ s.pc = s0.pc := by
+    subst hs; exact ⟨⟨rfl, rfl, rfl, rfl, Nat.le_refl _, fun _ _ => rfl⟩, rfl, rfl⟩
   have hseg := seg_inHelper s code
-  have hsim := hE e he (isFnScope s) {} _ ((code, t), _) hc rfl (inHelper s code) rs env [] [.ret]
+  have hsim := hE e he (isFnScope s0) {} _ ((code, t), _) hc rfl (inHelper s code) rs env [] [.ret]
     (relC_inHelper hrel code) hseg
-  have hunf := fun fuel => evalCallExpr_nonsym fuel e hns s code t hgen hne
+  have hunf := fun fuel => evalCallExpr_nonsym fuel e hns s0 s code t hgen hne
   cases hres : Ref.eval n e env rs with
   | ok v rs' =>
     rw [hres] at hsim
@@ -769,7 +894,7 @@ theorem evalCallExpr_nonsym_sim {n : Nat} (hE : CClaimE n) (e : Expr) (he : Fc e
       (by show s4.suspended.length = s.suspended.length; rw [fr4.susp]; rfl) rfl
       (by show s4.linear.length = s.linear.length; rw [fr4.linear]; rfl) rfl
     refine ⟨M + 2, { s4 with addr := s.addr, curfunc := s.curfunc, pc := s.pc, data := s.data }, fun fuel hf => ?_,
-      rfl, rfl, ?_, ext4, ?_, hcl4⟩
+      hs0.2.1, hs0.2.2, ?_, ext4, ?_, hcl4⟩
     · obtain ⟨f, rfl⟩ : ∃ f, fuel = f + 2 := ⟨fuel - 2, by omega⟩
       rw [hunf f, hM f (by omega)]
       simp only [hbal]
@@ -781,7 +906,7 @@ theorem evalCallExpr_nonsym_sim {n : Nat} (hE : CClaimE n) (e : Expr) (he : Fc e
           (Nat.le_trans (by show s.fns.length ≤ (s.fns ++ [_]).length; simp) fr4.fnsLen)
           (fun id hid => (fr4.fns id (by show id < (s.fns ++ [_]).length; simp; omega)).trans
             (fnOf_inHelper_old s code id hid))
-    · exact ⟨fr4.linear, rfl, rfl, fr4.susp,
+    · exact hs0.1.trans ⟨fr4.linear, rfl, rfl, fr4.susp,
         Nat.le_trans (by show s.fns.length ≤ (s.fns ++ [_]).length; simp) fr4.fnsLen,
         fun id hid => (fr4.fns id (by show id < (s.fns ++ [_]).length; simp; omega)).trans
           (fnOf_inHelper_old s code id hid)⟩
@@ -932,21 +1057,6 @@ theorem exec_callExpr_builtin (F : Nat) (h : String) (args : List Expr) (s : St)
     | ok u2 => simp only [run_bind, hp, hcu, run_get, run_set, run_throw, run_modify, run_pure]
     | error flt =>
       cases flt <;> simp only [run_bind, hp, hcu, run_get, run_set, run_throw, run_modify, run_pure]
-
-/-- the relation only reads scopes, linear stack, function table, `curfunc`, frames, heaps and traces -/
-theorem RelC.of_same {s s' : St} {rs rs' : Ref.St} {env : Nat} (h : RelC s rs env)
-    (hsc : s'.scopes = s.scopes) (hlin : s'.linear = s.linear) (hfns : s'.fns = s.fns) (hcur : s'.curfunc = s.curfunc)
-    (hfr : rs'.frames = rs.frames) (hheap : s'.heap = rs'.heap) (htr : s'.trace = rs'.trace) (hclean : CleanSt rs') :
-    RelC s' rs' env := by
-  have hso : ∀ i, scopeOf s' i = scopeOf s i := fun i => by unfold scopeOf; rw [hsc]
-  have hfo : ∀ i, fnOf s' i = fnOf s i := fun i => by unfold fnOf; rw [hfns]
-  refine ⟨⟨by rw [hsc, hfr]; exact h.len, fun i x => by rw [hso, hfr]; exact h.vars i x,
-    fun i => by rw [hso]; exact h.nofn i, by rw [hfr, hlin]; exact h.chain, hheap, htr⟩, ?_, ?_, hclean⟩
-  · rw [hcur]
-    exact h.fnchain.transfer ⟨[], by rw [hlin]; rfl⟩ (by rw [hfns]; exact Nat.le_refl _) (fun id _ => hfo id)
-  · intro name hn
-    have := h.globals name hn
-    rw [hfr]; exact this
 
 theorem foBuiltins_prim {h : String} (hh : h ∈ foBuiltins) (ht : h ≠ "trace") : h ∈ primNames := by
   have : foBuiltins = primNames ++ ["trace"] := rfl
